@@ -877,7 +877,9 @@ func ruleRangeMergeIsUnion(w *core.World, r *core.Report) {
 		return
 	}
 	n := 0
-	for _, in := range core.OwnInstrs(f) {
+	// the two extensions may sit in a helper that exists for this one call (it is read as part of the
+	// insertion: core.Instrs, and FactsAt adds what holds at the call)
+	for _, in := range core.Instrs(f) {
 		st, ok := in.(*ssa.Store)
 		if !ok {
 			continue
